@@ -1,6 +1,776 @@
-//! C36 — not implemented yet.
-use mc_core::Ctx;
+//! C36 — static manifest validation matches the bucket/proof lifecycle (Oracle A: the static half).
+//!
+//! Statement (static half): a manifest passes static validation only if every bucket, proof, address reservation,
+//! named address, blob and child intent it uses was created or declared earlier and not yet consumed, nothing is
+//! consumed twice, and the manifest ends as its kind requires.
+//!
+//! Explicit-state exploration of instruction sequences on the real `StaticManifestInterpreter`
+//! (`ValidationRuleset::all()`), for each of the 4 manifest kinds. A state is the instruction history that reaches
+//! it. Alphabet (computed from the state: every id that exists, consumed or not, plus the first id that does not
+//! exist yet): take-from-worktop, return / burn bucket b, create proof from bucket b / from auth zone, clone /
+//! drop / push proof p, pop from auth zone, drop all / named / auth-zone proofs, call with bucket b / proof p / the
+//! same bucket twice / reservation r (once, twice) / named address a as argument / on named address a / blob
+//! present or absent / expression / nothing, allocate address, and for V2 kinds yield to a declared / undeclared
+//! child (with bucket), yield to parent (plain, with bucket, with proof), verify parent, next-call assertion,
+//! bucket assertion.
+//!
+//! Phase 1 (decides): the full history tree (no de-duplication) to depth 4 (quick) / 5 (thorough), with prefix
+//! pruning (a prefix the real validator rejects at an instruction is not extended).
+//! Phase 2 (reaches deeper): breadth-first search with de-duplication on a fingerprint of the *real* interpreter's
+//! state (reconstructed from the events it sends to a visitor) to depth 6 / 8 under state and wall caps.
+//!
+//! Oracle A, one-directional as the statement: after every step the real validator is run on the history as a
+//! complete manifest. (1) If it gets past the last instruction (Ok, or an error that is only raised at the end of
+//! the manifest), the reference lifecycle model must accept that instruction; (2) if it returns Ok, the model must
+//! accept the manifest as complete for its kind. The converse (model accepts, real rejects — locks, dangling
+//! buckets, kind restrictions, next-call assertions) is counted as informational.
+//! The reference model is a few vectors of booleans written from the statement, independent of the interpreter.
+use crate::mgen::*;
+use crate::minrec::MinRec;
+use mc_core::{bfs, par_for, BfsStats, Ctx, Level, Local, Machine};
+use radix_common::prelude::*;
+use radix_engine_interface::prelude::*;
+use radix_transactions::manifest::*;
+use radix_transactions::prelude::*;
+use serde_json::{json, Map};
+use std::ops::ControlFlow;
+use std::sync::atomic::{AtomicU64, Ordering};
 
-pub fn run(_ctx: Ctx) -> ! {
-    mc_core::machinery_error("C36: not implemented")
+static MIN: MinRec = MinRec::new();
+
+#[derive(Clone, Copy, Debug, PartialEq, Eq, Hash, PartialOrd, Ord)]
+pub enum Op {
+    Take,
+    Return(u32),
+    Burn(u32),
+    ProofFromBucket(u32),
+    ProofFromAuthZone,
+    CloneProof(u32),
+    DropProof(u32),
+    Push(u32),
+    Pop,
+    DropAllProofs,
+    DropNamedProofs,
+    DropAuthZoneProofs,
+    CallPlain,
+    CallExpression,
+    CallBucket(u32),
+    CallBucketTwice(u32),
+    CallProof(u32),
+    CallReservation(u32),
+    CallReservationTwice(u32),
+    CallNamedAddressArg(u32),
+    CallOnNamedAddress(u32),
+    CallFunctionOnNamedPackage(u32),
+    CallBlob(bool),
+    Allocate,
+    // V2 only
+    YieldToChild(u32),
+    YieldToChildBucket(u32, u32),
+    YieldToParent,
+    YieldToParentBucket(u32),
+    YieldToParentProof(u32),
+    VerifyParent,
+    AssertNextCall,
+    AssertBucket(u32),
+}
+
+// ---------------------------------------------------------------------------------------------------------------
+// reference lifecycle model (from the statement)
+// ---------------------------------------------------------------------------------------------------------------
+
+#[derive(Clone, Debug, Default, PartialEq, Eq)]
+pub struct Model {
+    pub subintent: bool,
+    /// live?
+    pub buckets: Vec<bool>,
+    pub proofs: Vec<bool>,
+    pub reservations: Vec<bool>,
+    pub named_addresses: u32,
+    pub declared_children: u32,
+    pub len: usize,
+    pub last_is_yield_to_parent: bool,
+}
+
+type Reason = &'static str;
+
+impl Model {
+    pub fn new(kind: Kind) -> Model {
+        Model {
+            subintent: kind.is_subintent(),
+            reservations: if kind == Kind::SystemV1 { vec![true] } else { vec![] },
+            declared_children: if kind.is_v2() { 1 } else { 0 },
+            ..Default::default()
+        }
+    }
+    fn use_bucket(&mut self, b: u32) -> Result<(), Reason> {
+        match self.buckets.get_mut(b as usize) {
+            None => Err("bucket-not-created"),
+            Some(false) => Err("bucket-already-consumed"),
+            Some(live) => {
+                *live = false;
+                Ok(())
+            }
+        }
+    }
+    fn peek_bucket(&self, b: u32) -> Result<(), Reason> {
+        match self.buckets.get(b as usize) {
+            None => Err("bucket-not-created"),
+            Some(false) => Err("bucket-already-consumed"),
+            Some(true) => Ok(()),
+        }
+    }
+    fn use_proof(&mut self, p: u32) -> Result<(), Reason> {
+        match self.proofs.get_mut(p as usize) {
+            None => Err("proof-not-created"),
+            Some(false) => Err("proof-already-consumed"),
+            Some(live) => {
+                *live = false;
+                Ok(())
+            }
+        }
+    }
+    fn peek_proof(&self, p: u32) -> Result<(), Reason> {
+        match self.proofs.get(p as usize) {
+            None => Err("proof-not-created"),
+            Some(false) => Err("proof-already-consumed"),
+            Some(true) => Ok(()),
+        }
+    }
+    fn use_reservation(&mut self, r: u32) -> Result<(), Reason> {
+        match self.reservations.get_mut(r as usize) {
+            None => Err("reservation-not-created"),
+            Some(false) => Err("reservation-already-consumed"),
+            Some(live) => {
+                *live = false;
+                Ok(())
+            }
+        }
+    }
+    fn named(&self, a: u32) -> Result<(), Reason> {
+        if a < self.named_addresses {
+            Ok(())
+        } else {
+            Err("named-address-not-created")
+        }
+    }
+    /// Apply one instruction. Err = the statement forbids it in this state.
+    pub fn apply(&mut self, op: Op) -> Result<(), Reason> {
+        self.len += 1;
+        self.last_is_yield_to_parent = matches!(op, Op::YieldToParent | Op::YieldToParentBucket(_) | Op::YieldToParentProof(_));
+        match op {
+            Op::Take => self.buckets.push(true),
+            Op::Return(b) | Op::Burn(b) | Op::CallBucket(b) | Op::YieldToParentBucket(b) => self.use_bucket(b)?,
+            Op::CallBucketTwice(b) => {
+                self.use_bucket(b)?;
+                self.use_bucket(b)?;
+            }
+            Op::ProofFromBucket(b) => {
+                self.peek_bucket(b)?;
+                self.proofs.push(true);
+            }
+            Op::ProofFromAuthZone | Op::Pop => self.proofs.push(true),
+            Op::CloneProof(p) => {
+                self.peek_proof(p)?;
+                self.proofs.push(true);
+            }
+            Op::DropProof(p) | Op::Push(p) | Op::CallProof(p) | Op::YieldToParentProof(p) => self.use_proof(p)?,
+            Op::DropAllProofs | Op::DropNamedProofs => {
+                for p in self.proofs.iter_mut() {
+                    *p = false;
+                }
+            }
+            Op::DropAuthZoneProofs | Op::CallPlain | Op::CallExpression | Op::YieldToParent | Op::VerifyParent | Op::AssertNextCall => {}
+            Op::CallReservation(r) => self.use_reservation(r)?,
+            Op::CallReservationTwice(r) => {
+                self.use_reservation(r)?;
+                self.use_reservation(r)?;
+            }
+            Op::CallNamedAddressArg(a) | Op::CallOnNamedAddress(a) | Op::CallFunctionOnNamedPackage(a) => self.named(a)?,
+            Op::CallBlob(present) => {
+                if !present {
+                    return Err("blob-not-declared");
+                }
+            }
+            Op::Allocate => {
+                self.reservations.push(true);
+                self.named_addresses += 1;
+            }
+            Op::YieldToChild(c) => {
+                if c >= self.declared_children {
+                    return Err("child-not-declared");
+                }
+            }
+            Op::YieldToChildBucket(c, b) => {
+                if c >= self.declared_children {
+                    return Err("child-not-declared");
+                }
+                self.use_bucket(b)?;
+            }
+            Op::AssertBucket(b) => self.peek_bucket(b)?,
+        }
+        Ok(())
+    }
+    /// "the manifest ends as its kind requires"
+    pub fn complete_ok(&self) -> Result<(), Reason> {
+        if self.subintent && !(self.len > 0 && self.last_is_yield_to_parent) {
+            return Err("subintent-must-end-with-yield-to-parent");
+        }
+        Ok(())
+    }
+    pub fn alphabet(&self, kind: Kind) -> Vec<Op> {
+        let nb = self.buckets.len() as u32;
+        let np = self.proofs.len() as u32;
+        let nr = self.reservations.len() as u32;
+        let na = self.named_addresses;
+        let mut v = vec![Op::Take];
+        for b in 0..=nb {
+            v.push(Op::Return(b));
+        }
+        for b in 0..=nb {
+            v.push(Op::Burn(b));
+        }
+        for b in 0..=nb {
+            v.push(Op::ProofFromBucket(b));
+        }
+        v.push(Op::ProofFromAuthZone);
+        for p in 0..=np {
+            v.push(Op::CloneProof(p));
+        }
+        for p in 0..=np {
+            v.push(Op::DropProof(p));
+        }
+        for p in 0..=np {
+            v.push(Op::Push(p));
+        }
+        v.push(Op::Pop);
+        v.extend([Op::DropAllProofs, Op::DropNamedProofs, Op::DropAuthZoneProofs, Op::CallPlain, Op::CallExpression]);
+        for b in 0..=nb {
+            v.push(Op::CallBucket(b));
+        }
+        for b in 0..nb {
+            v.push(Op::CallBucketTwice(b));
+        }
+        for p in 0..=np {
+            v.push(Op::CallProof(p));
+        }
+        for r in 0..=nr {
+            v.push(Op::CallReservation(r));
+        }
+        for r in 0..nr {
+            v.push(Op::CallReservationTwice(r));
+        }
+        for a in 0..=na {
+            v.push(Op::CallNamedAddressArg(a));
+            v.push(Op::CallOnNamedAddress(a));
+        }
+        v.push(Op::CallFunctionOnNamedPackage(na));
+        if na > 0 {
+            v.push(Op::CallFunctionOnNamedPackage(0));
+        }
+        v.extend([Op::CallBlob(true), Op::CallBlob(false), Op::Allocate]);
+        if kind.is_v2() {
+            v.extend([Op::YieldToChild(0), Op::YieldToChild(1), Op::YieldToParent, Op::VerifyParent, Op::AssertNextCall]);
+            for b in 0..=nb {
+                v.push(Op::YieldToParentBucket(b));
+                v.push(Op::AssertBucket(b));
+            }
+            if nb > 0 {
+                v.push(Op::YieldToChildBucket(0, nb - 1));
+                v.push(Op::YieldToChildBucket(1, nb - 1));
+            }
+            for p in 0..=np {
+                v.push(Op::YieldToParentProof(p));
+            }
+        }
+        v
+    }
+}
+
+// ---------------------------------------------------------------------------------------------------------------
+// the real thing
+// ---------------------------------------------------------------------------------------------------------------
+
+fn instruction(op: Op) -> InstructionV2 {
+    let bucket = |b: u32| custom(ManifestCustomValue::Bucket(ManifestBucket(b)));
+    let proof = |p: u32| custom(ManifestCustomValue::Proof(ManifestProof(p)));
+    let res = |r: u32| custom(ManifestCustomValue::AddressReservation(ManifestAddressReservation(r)));
+    let call = |args: Vec<MV>| -> InstructionV2 { CallMethod { address: FAUCET.into(), method_name: "m".into(), args: tuple(args) }.into() };
+    match op {
+        Op::Take => TakeAllFromWorktop { resource_address: XRD }.into(),
+        Op::Return(b) => ReturnToWorktop { bucket_id: ManifestBucket(b) }.into(),
+        Op::Burn(b) => BurnResource { bucket_id: ManifestBucket(b) }.into(),
+        Op::ProofFromBucket(b) => CreateProofFromBucketOfAll { bucket_id: ManifestBucket(b) }.into(),
+        Op::ProofFromAuthZone => CreateProofFromAuthZoneOfAll { resource_address: XRD }.into(),
+        Op::CloneProof(p) => CloneProof { proof_id: ManifestProof(p) }.into(),
+        Op::DropProof(p) => DropProof { proof_id: ManifestProof(p) }.into(),
+        Op::Push(p) => PushToAuthZone { proof_id: ManifestProof(p) }.into(),
+        Op::Pop => PopFromAuthZone.into(),
+        Op::DropAllProofs => DropAllProofs.into(),
+        Op::DropNamedProofs => DropNamedProofs.into(),
+        Op::DropAuthZoneProofs => DropAuthZoneProofs.into(),
+        Op::CallPlain => call(vec![MV::U8 { value: 1 }]),
+        Op::CallExpression => call(vec![custom(ManifestCustomValue::Expression(ManifestExpression::EntireWorktop))]),
+        Op::CallBucket(b) => call(vec![bucket(b)]),
+        Op::CallBucketTwice(b) => call(vec![bucket(b), MV::Array { element_value_kind: MVK::Custom(ManifestCustomValueKind::Bucket), elements: vec![bucket(b)] }]),
+        Op::CallProof(p) => call(vec![proof(p)]),
+        Op::CallReservation(r) => CallFunction { package_address: FAUCET_PACKAGE.into(), blueprint_name: "B".into(), function_name: "f".into(), args: tuple(vec![res(r)]) }.into(),
+        Op::CallReservationTwice(r) => call(vec![res(r), MV::Enum { discriminator: 1, fields: vec![res(r)] }]),
+        Op::CallNamedAddressArg(a) => call(vec![custom(ManifestCustomValue::Address(ManifestAddress::Named(ManifestNamedAddress(a))))]),
+        Op::CallOnNamedAddress(a) => CallMethod { address: ManifestGlobalAddress::Named(ManifestNamedAddress(a)), method_name: "m".into(), args: unit() }.into(),
+        Op::CallFunctionOnNamedPackage(a) => CallFunction { package_address: ManifestPackageAddress::Named(ManifestNamedAddress(a)), blueprint_name: "B".into(), function_name: "f".into(), args: unit() }.into(),
+        Op::CallBlob(present) => call(vec![custom(ManifestCustomValue::Blob(ManifestBlobRef(hash(if present { BLOB_A } else { b"absent" as &[u8] }).0)))]),
+        Op::Allocate => AllocateGlobalAddress { package_address: FAUCET_PACKAGE, blueprint_name: "B".into() }.into(),
+        Op::YieldToChild(c) => YieldToChild { child_index: ManifestNamedIntentIndex(c), args: unit() }.into(),
+        Op::YieldToChildBucket(c, b) => YieldToChild { child_index: ManifestNamedIntentIndex(c), args: tuple(vec![bucket(b)]) }.into(),
+        Op::YieldToParent => YieldToParent { args: unit() }.into(),
+        Op::YieldToParentBucket(b) => YieldToParent { args: tuple(vec![bucket(b)]) }.into(),
+        Op::YieldToParentProof(p) => YieldToParent { args: tuple(vec![proof(p)]) }.into(),
+        Op::VerifyParent => VerifyParent { access_rule: AccessRule::AllowAll }.into(),
+        Op::AssertNextCall => AssertNextCallReturnsOnly { constraints: ManifestResourceConstraints::new() }.into(),
+        Op::AssertBucket(b) => AssertBucketContents { bucket_id: ManifestBucket(b), constraint: ManifestResourceConstraint::NonZeroAmount }.into(),
+    }
+}
+
+pub fn build(kind: Kind, ops: &[Op]) -> AnyManifest {
+    let mut blobs: IndexMap<Hash, Vec<u8>> = Default::default();
+    blobs.insert(hash(BLOB_A), BLOB_A.to_vec());
+    let parts = Parts {
+        kind,
+        instructions: ops.iter().map(|o| instruction(*o)).collect(),
+        blobs,
+        children: if kind.is_v2() { vec![child_hash(0)] } else { vec![] },
+        preallocated: if kind == Kind::SystemV1 {
+            vec![PreAllocatedAddress { blueprint_id: BlueprintId { package_address: FAUCET_PACKAGE, blueprint_name: "Faucet".into() }, address: FAUCET.into() }]
+        } else {
+            vec![]
+        },
+        names: ManifestObjectNames::Unknown,
+    };
+    assemble(&parts).expect("alphabet only uses instructions the kind can express")
+}
+
+/// Events of the real interpreter, folded into its lifecycle state (used as the explorer's fingerprint).
+#[derive(Default, Clone, Debug, PartialEq, Eq)]
+struct RealState {
+    buckets: Vec<bool>,
+    proofs: Vec<(bool, Option<u32>)>,
+    reservations: Vec<bool>,
+    named: u32,
+    intents: u32,
+    pending_next_call: bool,
+    last_effect_is_yield_to_parent: bool,
+    finished: bool,
+}
+
+impl ManifestInterpretationVisitor for RealState {
+    type Output = ManifestValidationError;
+    fn on_new_bucket(&mut self, _d: OnNewBucket) -> ControlFlow<Self::Output> {
+        self.buckets.push(true);
+        ControlFlow::Continue(())
+    }
+    fn on_consume_bucket(&mut self, d: OnConsumeBucket) -> ControlFlow<Self::Output> {
+        if let Some(b) = self.buckets.get_mut(d.bucket.0 as usize) {
+            *b = false;
+        }
+        ControlFlow::Continue(())
+    }
+    fn on_new_proof(&mut self, d: OnNewProof) -> ControlFlow<Self::Output> {
+        let parent = match d.state.source_amount.proof_kind() {
+            ProofKind::BucketProof(b) => Some(b.0),
+            ProofKind::AuthZoneProof => None,
+        };
+        self.proofs.push((true, parent));
+        ControlFlow::Continue(())
+    }
+    fn on_consume_proof(&mut self, d: OnConsumeProof) -> ControlFlow<Self::Output> {
+        if let Some(p) = self.proofs.get_mut(d.proof.0 as usize) {
+            p.0 = false;
+        }
+        ControlFlow::Continue(())
+    }
+    fn on_new_address_reservation(&mut self, _d: OnNewAddressReservation) -> ControlFlow<Self::Output> {
+        self.reservations.push(true);
+        ControlFlow::Continue(())
+    }
+    fn on_consume_address_reservation(&mut self, d: OnConsumeAddressReservation) -> ControlFlow<Self::Output> {
+        if let Some(r) = self.reservations.get_mut(d.address_reservation.0 as usize) {
+            *r = false;
+        }
+        ControlFlow::Continue(())
+    }
+    fn on_new_named_address(&mut self, _d: OnNewNamedAddress) -> ControlFlow<Self::Output> {
+        self.named += 1;
+        ControlFlow::Continue(())
+    }
+    fn on_new_intent(&mut self, _d: OnNewIntent) -> ControlFlow<Self::Output> {
+        self.intents += 1;
+        ControlFlow::Continue(())
+    }
+    fn on_resource_assertion(&mut self, d: OnResourceAssertion) -> ControlFlow<Self::Output> {
+        if matches!(d.assertion, ResourceAssertion::NextCall(_)) {
+            self.pending_next_call = true;
+        }
+        ControlFlow::Continue(())
+    }
+    fn on_end_instruction(&mut self, d: OnEndInstruction) -> ControlFlow<Self::Output> {
+        match d.effect {
+            ManifestInstructionEffect::Invocation { kind, .. } => {
+                self.pending_next_call = false;
+                self.last_effect_is_yield_to_parent = matches!(kind, InvocationKind::YieldToParent);
+            }
+            ManifestInstructionEffect::ResourceAssertion { .. } => self.last_effect_is_yield_to_parent = false,
+            _ => self.last_effect_is_yield_to_parent = false,
+        }
+        ControlFlow::Continue(())
+    }
+    fn on_finish(&mut self, _d: OnFinish) -> ControlFlow<Self::Output> {
+        self.finished = true;
+        ControlFlow::Continue(())
+    }
+}
+
+fn is_end_only_error(e: &ManifestValidationError) -> bool {
+    matches!(
+        e,
+        ManifestValidationError::DanglingBucket(..)
+            | ManifestValidationError::DanglingAddressReservation(..)
+            | ManifestValidationError::ManifestEndedWhilstExpectingNextCallAssertion
+            | ManifestValidationError::SubintentDoesNotEndWithYieldToParent
+    )
+}
+
+fn err_name(e: &ManifestValidationError) -> String {
+    let s = format!("{e:?}");
+    s.split(|c: char| !c.is_ascii_alphanumeric()).next().unwrap_or("?").to_string()
+}
+
+struct RealVerdict {
+    result: Result<(), ManifestValidationError>,
+    state: RealState,
+}
+
+fn run_real(kind: Kind, ops: &[Op], want_state: bool) -> Result<RealVerdict, String> {
+    let any = build(kind, ops);
+    mc_core::catch(|| {
+        if want_state {
+            let mut v = RealState::default();
+            let r = crate::with_any!(&any, m => StaticManifestInterpreter::new(ValidationRuleset::all(), m).validate_and_apply_visitor(&mut v));
+            RealVerdict { result: r, state: v }
+        } else {
+            let r = validate_any(&any, ValidationRuleset::all());
+            RealVerdict { result: r, state: RealState::default() }
+        }
+    })
+}
+
+/// One step: `ops` already contains the new op as its last element; `model` is the model *before* the op.
+/// Returns (class, extendable, model after, real state) or a violation.
+fn step(kind: Kind, ops: &[Op], model: &Model, want_state: bool, l: &mut Local) -> Result<(String, bool, Model, RealState), (String, String)> {
+    let op = *ops.last().unwrap();
+    let real = match run_real(kind, ops, want_state) {
+        Ok(r) => r,
+        Err(p) => return Err((format!("validator-panic:{}", mc_core::last_panic_location().rsplit('/').next().unwrap_or("?")), format!("StaticManifestInterpreter panicked: {p}"))),
+    };
+    let mut m2 = model.clone();
+    let model_step = m2.apply(op);
+    let real_prefix_ok = match &real.result {
+        Ok(()) => true,
+        Err(e) => is_end_only_error(e),
+    };
+    if real_prefix_ok {
+        if let Err(reason) = model_step {
+            return Err((format!("accepted-but:{reason}"), format!("the static validator got past instruction #{} ({:?}) although the lifecycle forbids it: {reason}; validator result: {:?}", ops.len() - 1, op, real.result)));
+        }
+        if real.result.is_ok() {
+            if let Err(reason) = m2.complete_ok() {
+                return Err((format!("accepted-complete-but:{reason}"), format!("the static validator accepted the complete manifest although {reason}")));
+            }
+            // informational: things the statement does not mention but the validator is expected to enforce
+            if m2.buckets.iter().any(|b| *b) {
+                l.info("accepted-with-live-bucket-at-end");
+            }
+            if m2.reservations.iter().any(|b| *b) {
+                l.info("accepted-with-live-reservation-at-end");
+            }
+            Ok(("prefix-ok:complete-ok".to_string(), true, m2, real.state))
+        } else {
+            let e = real.result.as_ref().unwrap_err();
+            Ok((format!("prefix-ok:incomplete:{}", err_name(e)), true, m2, real.state))
+        }
+    } else {
+        let e = real.result.as_ref().unwrap_err();
+        match model_step {
+            Err(reason) => Ok((format!("both-reject:{reason}"), false, m2, real.state)),
+            Ok(()) => {
+                l.info(&format!("converse:model-accepts:real-rejects:{}", err_name(e)));
+                Ok((format!("real-rejects-only:{}", err_name(e)), false, m2, real.state))
+            }
+        }
+    }
+}
+
+// ---------------------------------------------------------------------------------------------------------------
+// phase 1: full tree, depth-first, parallel over the accepted prefixes of length 2
+// ---------------------------------------------------------------------------------------------------------------
+
+#[derive(Default)]
+struct TreeStats {
+    states: AtomicU64,
+    transitions: AtomicU64,
+    leaves_rejected: AtomicU64,
+    alphabet_max: AtomicU64,
+}
+
+fn dfs(kind: Kind, ops: &mut Vec<Op>, model: &Model, max_depth: usize, l: &mut Local, st: &TreeStats, collect_at: Option<(usize, &mut Vec<(Vec<Op>, Model)>)>) {
+    let alphabet = model.alphabet(kind);
+    st.alphabet_max.fetch_max(alphabet.len() as u64, Ordering::Relaxed);
+    let mut collect_at = collect_at;
+    for op in alphabet {
+        ops.push(op);
+        st.transitions.fetch_add(1, Ordering::Relaxed);
+        l.eval();
+        match step(kind, ops, model, false, l) {
+            Ok((class, extend, m2, _)) => {
+                l.class(&class);
+                if extend {
+                    st.states.fetch_add(1, Ordering::Relaxed);
+                    if ops.len() < max_depth {
+                        match &mut collect_at {
+                            Some((d, out)) if ops.len() == *d => out.push((ops.clone(), m2)),
+                            Some((d, out)) => dfs(kind, ops, &m2, max_depth, l, st, Some((*d, out))),
+                            None => dfs(kind, ops, &m2, max_depth, l, st, None),
+                        }
+                    }
+                } else {
+                    st.leaves_rejected.fetch_add(1, Ordering::Relaxed);
+                }
+            }
+            Err((key, what)) => {
+                let hist: Vec<String> = ops.iter().map(|o| format!("{o:?}")).collect();
+                MIN.record(l, key, what, ops.len(), format!("{}|{:?}", kind.name(), ops), json!({"kind": kind.name(), "history": hist, "ops": ops_to_json(ops)}));
+            }
+        }
+        ops.pop();
+    }
+}
+
+fn ops_to_json(ops: &[Op]) -> serde_json::Value {
+    json!(ops.iter().map(|o| format!("{o:?}")).collect::<Vec<_>>())
+}
+
+fn parse_op(s: &str) -> Option<Op> {
+    let (name, args) = match s.find('(') {
+        Some(i) => (&s[..i], s[i + 1..s.len() - 1].split(',').map(|x| x.trim().to_string()).collect::<Vec<_>>()),
+        None => (s, vec![]),
+    };
+    let n = |i: usize| -> Option<u32> { args.get(i)?.parse().ok() };
+    Some(match name {
+        "Take" => Op::Take,
+        "Return" => Op::Return(n(0)?),
+        "Burn" => Op::Burn(n(0)?),
+        "ProofFromBucket" => Op::ProofFromBucket(n(0)?),
+        "ProofFromAuthZone" => Op::ProofFromAuthZone,
+        "CloneProof" => Op::CloneProof(n(0)?),
+        "DropProof" => Op::DropProof(n(0)?),
+        "Push" => Op::Push(n(0)?),
+        "Pop" => Op::Pop,
+        "DropAllProofs" => Op::DropAllProofs,
+        "DropNamedProofs" => Op::DropNamedProofs,
+        "DropAuthZoneProofs" => Op::DropAuthZoneProofs,
+        "CallPlain" => Op::CallPlain,
+        "CallExpression" => Op::CallExpression,
+        "CallBucket" => Op::CallBucket(n(0)?),
+        "CallBucketTwice" => Op::CallBucketTwice(n(0)?),
+        "CallProof" => Op::CallProof(n(0)?),
+        "CallReservation" => Op::CallReservation(n(0)?),
+        "CallReservationTwice" => Op::CallReservationTwice(n(0)?),
+        "CallNamedAddressArg" => Op::CallNamedAddressArg(n(0)?),
+        "CallOnNamedAddress" => Op::CallOnNamedAddress(n(0)?),
+        "CallFunctionOnNamedPackage" => Op::CallFunctionOnNamedPackage(n(0)?),
+        "CallBlob" => Op::CallBlob(args.first()? == "true"),
+        "Allocate" => Op::Allocate,
+        "YieldToChild" => Op::YieldToChild(n(0)?),
+        "YieldToChildBucket" => Op::YieldToChildBucket(n(0)?, n(1)?),
+        "YieldToParent" => Op::YieldToParent,
+        "YieldToParentBucket" => Op::YieldToParentBucket(n(0)?),
+        "YieldToParentProof" => Op::YieldToParentProof(n(0)?),
+        "VerifyParent" => Op::VerifyParent,
+        "AssertNextCall" => Op::AssertNextCall,
+        "AssertBucket" => Op::AssertBucket(n(0)?),
+        _ => return None,
+    })
+}
+
+// ---------------------------------------------------------------------------------------------------------------
+// phase 2: BFS with de-duplication on the real interpreter's state
+// ---------------------------------------------------------------------------------------------------------------
+
+struct Lifecycle {
+    kind: Kind,
+}
+
+struct LSt {
+    ops: Vec<Op>,
+    model: Model,
+    real: RealState,
+    dead: bool,
+}
+
+impl Machine for Lifecycle {
+    type Op = Op;
+    type St = LSt;
+    fn init(&self) -> LSt {
+        let real = run_real(self.kind, &[], true).map(|r| r.state).unwrap_or_default();
+        LSt { ops: vec![], model: Model::new(self.kind), real, dead: false }
+    }
+    fn ops(&self, st: &LSt, _depth: usize) -> Vec<Op> {
+        st.model.alphabet(self.kind)
+    }
+    fn step(&self, st: &mut LSt, op: &Op) -> Result<String, (String, String)> {
+        st.ops.push(*op);
+        let mut l = Local::new();
+        let (class, extend, m2, real) = step(self.kind, &st.ops, &st.model, true, &mut l)?;
+        st.model = m2;
+        st.real = real;
+        st.dead = !extend;
+        Ok(class)
+    }
+    fn fingerprint(&self, st: &LSt) -> Vec<u8> {
+        if st.dead {
+            // rejected prefixes are leaves; they all collapse into one sink per kind
+            return vec![0xFF];
+        }
+        let r = &st.real;
+        let mut v = vec![];
+        v.push(r.buckets.len() as u8);
+        v.extend(r.buckets.iter().map(|b| *b as u8));
+        v.push(r.proofs.len() as u8);
+        for (live, parent) in &r.proofs {
+            v.push(*live as u8);
+            v.push(parent.map(|p| p as u8 + 1).unwrap_or(0));
+        }
+        v.push(r.reservations.len() as u8);
+        v.extend(r.reservations.iter().map(|b| *b as u8));
+        v.push(r.named as u8);
+        v.push(r.intents as u8);
+        v.push(r.pending_next_call as u8);
+        v.push(r.last_effect_is_yield_to_parent as u8);
+        v.push((st.ops.is_empty()) as u8);
+        v
+    }
+    fn fork(&self, st: &LSt) -> Option<LSt> {
+        Some(LSt { ops: st.ops.clone(), model: st.model.clone(), real: st.real.clone(), dead: st.dead })
+    }
+    fn terminal(&self, st: &LSt) -> bool {
+        st.dead
+    }
+}
+
+// ---------------------------------------------------------------------------------------------------------------
+
+pub fn run(ctx: Ctx) -> ! {
+    if let Some(case) = ctx.read_replay_case() {
+        let kind = match case.get("kind").and_then(|k| k.as_str()).unwrap_or("V1") {
+            "SystemV1" => Kind::SystemV1,
+            "V2" => Kind::V2,
+            "SubintentV2" => Kind::SubintentV2,
+            _ => Kind::V1,
+        };
+        let ops: Vec<Op> = case.get("ops").and_then(|o| o.as_array()).map(|a| a.iter().filter_map(|x| x.as_str().and_then(parse_op)).collect()).unwrap_or_else(|| {
+            // phase-2 violations carry "history" (Debug strings) only
+            case.get("history").and_then(|o| o.as_array()).map(|a| a.iter().filter_map(|x| x.as_str().and_then(parse_op)).collect()).unwrap_or_default()
+        });
+        println!("replaying {} history {:?}", kind.name(), ops);
+        let mut l = Local::new();
+        let mut model = Model::new(kind);
+        for i in 0..ops.len() {
+            match step(kind, &ops[..=i], &model, true, &mut l) {
+                Ok((class, extend, m2, real)) => {
+                    println!("  step {i} {:?}: {class} (extendable={extend}) real-state={:?}", ops[i], real);
+                    model = m2;
+                }
+                Err((key, what)) => {
+                    println!("  step {i} {:?}: VIOLATION {key}: {what}", ops[i]);
+                    l.violation(key, what, case.clone());
+                    break;
+                }
+            }
+        }
+        ctx.merge(l);
+        ctx.finish(Level::ModelChecking, "replay", 0, false, Map::new(), &[]);
+    }
+
+    let depth1 = ctx.pick(4usize, 5usize);
+    let mut cov = Map::new();
+    let st = TreeStats::default();
+    let mut per_kind = vec![];
+    for kind in KINDS {
+        let s0 = (st.states.load(Ordering::Relaxed), st.transitions.load(Ordering::Relaxed));
+        // the root: empty manifest
+        {
+            let mut l = Local::new();
+            let real = run_real(kind, &[], false).unwrap_or_else(|p| mc_core::machinery_error(&format!("validator panicked on the empty manifest: {p}")));
+            let m = Model::new(kind);
+            l.eval();
+            match (&real.result, m.complete_ok()) {
+                (Ok(()), Err(reason)) => MIN.record(&mut l, format!("accepted-complete-but:{reason}"), "empty manifest accepted", 0, kind.name(), json!({"kind": kind.name(), "ops": []})),
+                (Ok(()), Ok(())) => l.class("prefix-ok:complete-ok"),
+                (Err(e), _) => l.class(&format!("prefix-ok:incomplete:{}", err_name(e))),
+            }
+            ctx.merge(l);
+            st.states.fetch_add(1, Ordering::Relaxed);
+        }
+        // collect accepted prefixes of length 2 sequentially, then fan out
+        let mut l = Local::new();
+        let mut seeds: Vec<(Vec<Op>, Model)> = vec![];
+        let split = 2.min(depth1 - 1);
+        dfs(kind, &mut vec![], &Model::new(kind), depth1, &mut l, &st, Some((split, &mut seeds)));
+        ctx.merge(l);
+        par_for(&ctx, &seeds, |(ops, model), l| {
+            let mut o = ops.clone();
+            dfs(kind, &mut o, model, depth1, l, &st, None);
+        });
+        let s1 = (st.states.load(Ordering::Relaxed), st.transitions.load(Ordering::Relaxed));
+        per_kind.push(json!({"kind": kind.name(), "accepted_prefixes": s1.0 - s0.0, "transitions": s1.1 - s0.1}));
+        eprintln!("[C36] phase 1 {} done at {:.1}s: {} states {} transitions", kind.name(), ctx.elapsed_s(), s1.0 - s0.0, s1.1 - s0.1);
+    }
+    let p1_states = st.states.load(Ordering::Relaxed);
+    let p1_transitions = st.transitions.load(Ordering::Relaxed);
+    cov.insert("phase1_full_tree".into(), json!({"max_depth": depth1, "states_are": "distinct accepted histories (no de-duplication)", "per_kind": per_kind, "rejected_leaves": st.leaves_rejected.load(Ordering::Relaxed)}));
+
+    // phase 2
+    let depth2 = ctx.pick(6usize, 8usize);
+    let (cap_states, cap_wall) = ctx.pick((60_000u64, 10.0f64), (400_000u64, 150.0f64));
+    let mut total = BfsStats::default();
+    let mut p2 = vec![];
+    for kind in KINDS {
+        let m = Lifecycle { kind };
+        let s = bfs(&ctx, &m, kind.name(), depth2, cap_states, cap_wall);
+        p2.push(json!({"kind": kind.name(), "states": s.states, "transitions": s.transitions, "depth_completed": s.depth_completed, "capped": s.capped}));
+        eprintln!("[C36] phase 2 {} done at {:.1}s: {} states {} transitions depth {} capped {}", kind.name(), ctx.elapsed_s(), s.states, s.transitions, s.depth_completed, s.capped);
+        total.add(&s);
+    }
+    cov.insert("phase2_dedup_bfs".into(), json!({"max_depth": depth2, "fingerprint": "real interpreter lifecycle state reconstructed from its visitor events", "per_kind": p2, "caps_hit": total.capped, "depth_completed_min": total.depth_completed}));
+
+    MIN.flush(&ctx);
+    cov.insert("states".into(), json!(p1_states + total.states));
+    cov.insert("transitions".into(), json!(p1_transitions + total.transitions));
+    cov.insert("traces_validated_against_impl".into(), json!(p1_transitions + total.transitions));
+    cov.insert("max_depth".into(), json!(depth2.max(depth1)));
+    cov.insert("alphabet_max".into(), json!(st.alphabet_max.load(Ordering::Relaxed)));
+    let exhaustive_note = format!("phase 1 exhaustive to depth {depth1}; phase 2 {} to depth {}", if total.capped { "capped" } else { "exhaustive (modulo fingerprint)" }, total.depth_completed);
+    ctx.note(exhaustive_note);
+    ctx.finish(
+        Level::ModelChecking,
+        "a case = one transition: a history extended by one instruction, validated by the real StaticManifestInterpreter as a complete manifest and compared with the reference lifecycle model; non-trivial = distinct accepted histories of phase 1 (prefixes the real validator gets through)",
+        p1_states,
+        true,
+        cov,
+        &[
+            "Oracle A only (static half); the run-time half (Oracle B) lives in mc-engine",
+            "one-directional oracle as the statement: accepted => lifecycle-correct; locks, dangling buckets, kind restrictions are counted as converse/informational",
+            "fixed header per kind: SystemV1 has one preallocated reservation, V2 kinds declare one child, blob A is registered",
+        ],
+    )
 }
